@@ -234,6 +234,11 @@ def scenarios(algs):
             out.append(('dbfault-in-dispatch', [('org', others[0], None, [1]), ('disp',), ('org', r_, None, [1]),
                                                 ('org', kids[0], None, [1]), ('dbfail',), ('disp',),
                                                 ('reply0', 'success'), ('disp',), ('pump', 'success', None)]))
+            # the same, and the unit whose release hit the fault fails when it finally runs
+            out.append(('dbfault-in-dispatch-then-failure',
+                        [('org', others[0], None, [1]), ('disp',), ('org', r_, None, [1]),
+                         ('org', kids[0], None, [1]), ('dbfail',), ('disp',),
+                         ('reply0', 'success'), ('disp',), ('pump', 'success', r_)]))
     return out
 
 
@@ -483,6 +488,10 @@ class Run:
                 self.check_update(tag, t, news if nonempty else [], before, after)
             if outcome != 'success' and n_chron == 1:
                 self.check_failure(tag, t, before, after)
+            if outcome != 'success' and n_chron != 1:
+                self.hit('C05', 'outcome-not-recorded',
+                         f'{tag}[{t}] answered {outcome}: {n_chron} history entries were written (expected one), '
+                         f'its target is not withdrawn from its dependents')
         # failure purge may strip `doing` of executing dependents: remember them (known finding)
         for (x, u) in self.inflight:
             if u not in after['nodes'][x]['doing'] and (x, u) not in self.purged:
